@@ -21,7 +21,7 @@ CHECKS = {
         text="Generated-input search: every generated valid text must be accepted by all four entry points (9 entry/flag/"
              "terminator variants, guard-page and exact-size heap placement) and the decoded tree must equal, byte for byte and "
              "bit for bit, the dump predicted by an independent Python model (correctly rounded float(), UTF-8 of the code points). "
-             "Exploration, not proof: holds on everything generated.",
+             "Exploration, not proof: holds on everything generated. Every case is also parsed in its compact spelling; all documents of up to two members over a few one-byte values and names are enumerated.",
         note="Trusted: Python float()/UTF-8 codec as the reference decoder, the native dumper, ASan/UBSan. Only the C locale exists here.",
         ref="3 C02"),
     "C03": dict(
@@ -106,7 +106,7 @@ CHECKS = {
         technique="property-based metamorphic/differential testing (Hypothesis pairs: 21 mutation relations) against a reference equality on Python models",
         text="For generated pairs (tree, mutation of it | independent tree) Compare(a,b,cs), Compare(b,a,cs) and the reference equality must agree "
              "for both case modes (case-insensitive only when keys stay distinct after folding); reflexivity, NULL/invalid arguments, "
-             "ownership-flag variants (constant keys, string references, parsed vs built) and non-modification are checked. Exploration.",
+             "ownership-flag variants (constant keys, string references, parsed vs built) and non-modification are checked. Exploration. Pairs on the edge of the tolerance (a power of two and the number two ulps below) are judged for symmetry only.",
         note="Trusted: model.eq_set (written from the statement). Number perturbations between 1 and 4 ulp are not generated.",
         ref="3 C12"),
     "C13": dict(
@@ -115,7 +115,7 @@ CHECKS = {
         engine="hypothesis/ctypes shim + libFuzzer fz_minify",
         text="Valid documents are emitted as token sequences with generated blanks and //, /* */ comments between tokens; the minified buffer must "
              "equal the token concatenation byte for byte, parse to the expected value and be a fixed point of Minify. Arbitrary zero-terminated "
-             "bytes (Hypothesis + coverage-guided fuzzing) run in a buffer whose terminator is the last accessible byte. Exploration.",
+             "bytes (Hypothesis + coverage-guided fuzzing) run in a buffer whose terminator is the last accessible byte. Exploration. Documents nested up to the parser's limit.",
         note="Trusted: page protection/canaries, the dialect recogniser (for the strict-input oracle inside the fuzz target).",
         ref="3 C13"),
     "C14": dict(
@@ -150,7 +150,7 @@ CHECKS = {
         text="The generated patch must be a well-formed add/remove/replace array, transform 'from' into 'to' under the Python reference and "
              "under the library itself, be empty iff the documents are equal, and leave both inputs equal in value, structurally sound and "
              "still accepting appends in every container; then the inputs are edited through the core API and a second patch is generated and "
-             "judged the same way. Numbers include both ends of the double range; documents to 1500 levels; every composed path length 1..300. Exploration.",
+             "judged the same way. Numbers include both ends of the double range; documents to 1500 levels; every composed path length 1..300. Exploration. The patch is also applied to 'from' rebuilt in its original member order; documents with names that are beginnings of one another.",
         note="Trusted: verif/rfc.py, model.eq_set. Numbers on a 1/8 grid so tolerance and exact equality coincide.",
         ref="3 C17"),
     "C18": dict(
@@ -158,7 +158,7 @@ CHECKS = {
         text="MergePatchCaseSensitive must equal the Python RFC 7396 reference on independent and target-derived patches (nulls at depth, "
              "non-object patches/targets); the generated merge patch applied by the reference and by the library must turn 'from' into 'to' "
              "(no null object members in 'to'), be NULL only when nothing changes, and leave both inputs intact and usable; a second generation "
-             "after editing the inputs; object chains to 1500 levels; patch values too deep to be copied (memory safety only). Exploration.",
+             "after editing the inputs; object chains to 1500 levels; patch values too deep to be copied (memory safety only). Exploration. Numbers at both ends of the double range.",
         note="Trusted: verif/rfc.py (RFC 7396 appendix examples pass). Keys distinct per object.",
         ref="3 C18"),
     "C19": dict(
@@ -166,7 +166,7 @@ CHECKS = {
         text="Each SortObject[CaseSensitive] call on any object of any live tree must give non-decreasing keys over exactly the same member "
              "nodes and be idempotent; after it and after patch 'test', GeneratePatches, GenerateMergePatch, every live tree must equal the "
              "list/map model after every further append/insert/detach/replace/print/delete; objects of 1000..400000 members in seven key orders "
-             "are sorted (directly or through a utility) and checked natively for order, count, chain, tail link, append, idempotence. Exploration over histories.",
+             "are sorted (directly or through a utility) and checked natively for order, count, chain, tail link, append, idempotence. Exploration over histories. Families of names with long common beginnings (also in monotone insertion order), patch test against near copies, detach/insert after a sort.",
         note="Order among equal keys is not asserted (no stability claim). Trusted: the C06 model.",
         ref="3 C19"),
     "C20": dict(
